@@ -4,6 +4,7 @@ CONSTANTS
   AN = {"x"}
   RN = {}
   MaxTypes = 3
+  Rich = TRUE
 VIEW View
 INVARIANTS InvWellFormed InvLookups CoherentAfterTwoWay
 PROPERTIES ErrLeavesUnchanged RemoveAbsentIsNoop TwoWayPost
